@@ -1221,8 +1221,8 @@ class ContactHandler(Messenger, dbus.service.Object):
         for (key, val) in self._sess_parameters.items():
             if val is None:
                 continue
-            if isinstance(val, int):
-                val = min(2 ** 31 - 1, val)
+            if isinstance(val, int) and val > 2 ** 31 - 1:
+                val = dbus.UInt64(val)
             elif isinstance(val, ipaddress._BaseAddress):
                 val = str(val)
             params[key] = val
